@@ -28,11 +28,11 @@ Clauses and bounds (tol = requested tolerance, nov = active singles, m = roots r
                        c_k = 1.25 * [sqrt(w_k / mu_min(A-B)) + sqrt(mu_max(A-B) / w_k)] / 2  from the dense matrices
   orthonormal          |X X^T - 1| <= 1e-8     (RPA: |X X^T - Y Y^T - 1| <= 1e-8)
   residual             inf-norm with the DENSE matrices <= 1.05 tol + 1e-11  (the code's own rule, 5 % allowance)
-  eigenvector          ||(1 - P_level) x_k|| <= 2 sqrt(nov) 1.05 tol / gap + 1e-8   (Davis-Kahan, P_level = projector on the
+  eigenvector          ||(1 - P_level) x_k|| <= 3 sqrt(nov) 1.05 tol / gap + 1e-8   (Davis-Kahan, P_level = projector on the
                        dense eigenspace of the level E_k belongs to; degenerate levels handled as subspaces)
   same answer          energies of two runs at one geometry (random start, reuse modes, batch vs alone) agree within the sum
                        of their eigenvalue bounds + 2e-6 (SCF allowance, 1e4 x scf_eps); complete levels are compared through
-                       AO-basis transition-density projectors, sin(theta) <= 2 [2 sqrt(m_l nov) 1.05 tol + 2e-6] / gap + 1e-7;
+                       AO-basis transition-density projectors, sin(theta) <= 3 [2 sqrt(m_l nov) 1.05 tol + 2e-6] / gap + 1e-7;
                        skipped (counted) when the two runs sit on different SCF solutions (|dEtot| > 1e-5)
   RPA <= CIS           E_RPA,k - E_CIS,k <= RPA eigenvalue bound + 1e-9
 
@@ -86,7 +86,7 @@ SCF_ALLOW = 1e-6          # allowance for two SCF solutions of the same geometry
 ORTHO_TOL = 1e-8
 RES_ALLOW = 1.05
 RES_ABS = 1e-11
-VEC_ALLOW = 2.0           # allowance on the Davis-Kahan eigenvector bounds  sin(theta) <= ||r||_2 / gap
+VEC_ALLOW = 3.0           # allowance on the Davis-Kahan eigenvector bounds  sin(theta) <= ||r||_2 / gap
 EIG_ABS = 1e-9
 GUARD_FOCK = 1e-6
 GUARD_SS = 1e-9
@@ -261,6 +261,10 @@ def gen_cases(tier, seed):
     if tier == "quick":
         n_point, n_window, n_seq, n_hb, n_mb = 26, 10, 12, 8, 8
         nstart = 2
+        # quick tier: no single case above ~40 s -- cubane (nov 400) only in the thorough tier, sequences on nov <= 100
+        pool = [n for n in pool if _dims(n)[0] * _dims(n)[1] <= 310]
+        big = [n for n in big if n in pool]
+        sym = [n for n in sym if n in pool]
     else:
         n_point, n_window, n_seq, n_hb, n_mb = 420, 160, 170, 110, 110
         nstart = 3
@@ -279,8 +283,13 @@ def gen_cases(tier, seed):
         return _pick(g, pool), False
 
     # ---- sequences first (most expensive)
+    seq_modes = ["reuse-best-guess", "reuse-raw"] if tier == "quick" else ["reuse-best-guess", "reuse-raw", "no-reuse"]
     for i in range(n_seq):
         name, is_sym = choose_mol(i, n_seq)
+        for _ in range(40):
+            if tier != "quick" or _dims(name)[0] * _dims(name)[1] <= 100:
+                break
+            name, is_sym = choose_mol(5 + int(g.integers(0, 3000)), n_seq)
         no, nv = _dims(name)
         method = _pick(g, _methods_for(name))
         xm = "rpa" if i % 4 == 3 else "cis"
@@ -292,7 +301,7 @@ def gen_cases(tier, seed):
             path = {"mode": "walk", "sigma0": 0.05, "step": float(_pick(g, [0.01, 0.03, 0.06])), "rot": "haar",
                     "seed": int(g.integers(0, 2**31))}
         cases.append({"kind": "seq", "mol": name, "method": method, "xm": xm, "n_states": _nstates(g, no * nv, 8),
-                      "tol": float(_pick(g, TOLS)), "path": path})
+                      "tol": float(_pick(g, TOLS)), "path": path, "modes": seq_modes})
     # ---- homogeneous batches
     for i in range(n_hb):
         name, is_sym = choose_mol(i + 2, n_hb)
@@ -311,7 +320,7 @@ def gen_cases(tier, seed):
         k = int(g.integers(2, 5))
         chosen = []
         for t in range(k):
-            chosen.append(_pick(g, sym if (t == 0 and i % 2 == 0) else names))
+            chosen.append(_pick(g, [n for n in sym if n in names] if (t == 0 and i % 2 == 0) else names))
         chosen = [n for n in chosen if available(n, method)] or [_pick(g, names)]
         if len(set(chosen)) == 1:
             chosen.append(_pick(g, [n for n in names if n != chosen[0]]))
@@ -328,6 +337,11 @@ def gen_cases(tier, seed):
         cases.append({"kind": "point", "mol": name, "method": method, "geom": _geom_spec(g, name, is_sym),
                       "n_states": _nstates(g, no * nv), "tol": float(_pick(g, TOLS)),
                       "starts": [int(g.integers(0, 2**31)) for _ in range(nstart)]})
+    # ---- enumerated on purpose: solves in which every preconditioned correction falls below the discard threshold while
+    #      a root is still above the tolerance (the stagnation exit; cf. mechanism davidson-stagnation-exit-residual-above-tol)
+    for name, method, ns, tl in (("C7H7+", "AM1", 6, 1e-6), ("C3N3H3", "AM1", 8, 1e-4), ("B3N3H6", "AM1", 6, 1e-6)):
+        cases.append({"kind": "point", "mol": name, "method": method,
+                      "geom": {"mol": name, "mode": "sym", "seed": 1, "rot": "haar"}, "n_states": ns, "tol": tl, "starts": []})
     # ---- orbital windows
     for i in range(n_window):
         name, is_sym = choose_mol(i + 1, n_window)
@@ -338,6 +352,19 @@ def gen_cases(tier, seed):
         cases.append({"kind": "window", "mol": name, "method": method, "geom": _geom_spec(g, name, is_sym),
                       "window": [nb, ma], "n_states": _nstates(g, nb * ma), "tol": float(_pick(g, TOLS)),
                       "starts": [int(g.integers(0, 2**31))]})
+    if tier == "quick":
+        # heaviest first (estimated solves x size), so that 16 workers finish together
+        def cost(c):
+            names = [c["mol"]] if "mol" in c else [gs["mol"] for gs in c["geoms"]]
+            nov = max(_dims(n)[0] * _dims(n)[1] for n in names)
+            if c.get("window"):
+                nov = c["window"][0] * c["window"][1]
+            nsolve = {"seq": 5 + 5 * len(c.get("modes", [1, 2, 3])), "hbatch": 2 * len(c.get("geoms", [])),
+                      "mbatch": 2 * len(c.get("geoms", [])), "point": 3 + 2 * len(c.get("starts", [])),
+                      "window": 2 + len(c.get("starts", []))}[c["kind"]]
+            return nsolve * (1.0 + (nov / 60.0) ** 2)
+        order = sorted(range(len(cases)), key=lambda i: (-cost(cases[i]), i))
+        return [cases[i] for i in order]
     # interleave the kinds (a budget cut then still leaves balanced coverage); sequences lead each round (most expensive)
     count, seen = {}, {}
     for c in cases:
@@ -469,6 +496,20 @@ def setup_worker():
     _H["ok"] = True
 
 
+_OPEN = {"keys": None}
+
+
+def _open_keys():
+    """keys of the OPEN known findings of this property (read-only)"""
+    if _OPEN["keys"] is None:
+        try:
+            from vlib import verdict
+            _OPEN["keys"] = {e.get("key") for e in verdict.load_known(PROPERTY)}
+        except Exception:
+            _OPEN["keys"] = set()
+    return _OPEN["keys"]
+
+
 class Acc:
     def __init__(self):
         self.viol, self.margins, self.mon, self.cells, self.notes = [], {}, {}, [], []
@@ -484,16 +525,37 @@ class Acc:
     def m(self, name, n=1):
         self.mon[name] = self.mon.get(name, 0) + n
 
+    # margins of one judged solve are collected in a scope; when that solve is matched by an OPEN known finding its
+    # margins are kept out of the report (they describe the listed defect, not the bounds' head-room)
+    def begin_solve(self):
+        self._scope = {}
+        self._scope_mechs = []
+
+    def end_solve(self):
+        sc, mechs = getattr(self, "_scope", None), getattr(self, "_scope_mechs", [])
+        self._scope = None
+        if sc is None:
+            return
+        if mechs and any(k in _open_keys() for k in mechs):
+            self.m("solves_matched_by_open_finding")
+            return
+        for k, r in sc.items():
+            if k not in self.margins or r > self.margins[k]:
+                self.margins[k] = r
+
     def margin(self, name, val, bound):
         r = float(val) / float(bound)
-        if name not in self.margins or r > self.margins[name]:
-            self.margins[name] = r
+        tgt = self._scope if getattr(self, "_scope", None) is not None else self.margins
+        if name not in tgt or r > tgt[name]:
+            tgt[name] = r
         return r > 1.0
 
     def v(self, clause, mech, **detail):
         # at most two witnesses per (clause, mechanism) and twelve per case
         same = sum(1 for x in self.viol if x["clause"] == clause and x["mech"] == mech)
         self.m("violations_seen/" + str(mech))
+        if getattr(self, "_scope", None) is not None:
+            self._scope_mechs.append(mech)
         if same < 2 and len(self.viol) < 12:
             self.viol.append({"clause": clause, "mech": mech, "detail": detail})
 
@@ -596,6 +658,8 @@ def _reference(acc, mol, b, window, hetero, cache, do_sigma):
         acc.margin("guard_ss_klopman", ss, GUARD_SS)
         if ss > GUARD_SS:
             acc.guard_fail = "pair -> atom mapping of molecule.w not as assumed (|dss| = %.2e)" % ss
+    if not do_sigma:
+        cache[("hcore", id(mol))] = None
     if ("hcore", id(mol)) not in cache:
         try:
             from seqm.seqm_functions.hcore import hcore
@@ -701,6 +765,14 @@ def _amps(mol, b, xm, ref, hetero):
 
 
 def _judge(acc, mol, b, run, cache, do_sigma=True):
+    acc.begin_solve()
+    try:
+        return _judge_inner(acc, mol, b, run, cache, do_sigma)
+    finally:
+        acc.end_solve()
+
+
+def _judge_inner(acc, mol, b, run, cache, do_sigma=True):
     """run: dict(xm, tol, n_req, window, hetero, solver, start, label, iters).  Returns a small record."""
     xm, tol, n_req, window, hetero = run["xm"], run["tol"], run["n_req"], run.get("window"), run.get("hetero", False)
     ref = _reference(acc, mol, b, window, hetero, cache, do_sigma)
@@ -736,8 +808,34 @@ def _judge(acc, mol, b, run, cache, do_sigma=True):
                 return "davidson-stagnation-exit-residual-above-tol"
             return "davidson-stagnation-exit-residual-far-above-tol"
         if clause == "root-skipped":
+            # the listed mechanism: Davidson converged on a set of TRUE eigenpairs that is not the lowest one, on a
+            # nuclear framework with a non-trivial point-group operation.  Anything else keeps a different key.
             sym = _is_symmetric(ref["d"]["Z"], ref["d"]["X"])
             wit["geometry_symmetric"] = bool(sym)
+            spec = ref["rpa"][0] if xm == "rpa" else ref["lam"]
+            bnd = float(value) if value is not None else EIG_ABS
+            used, genuine = set(), True
+            for ek in E:                       # injective, multiplicity-aware match of every returned root
+                cand = [j for j in np.nonzero(np.abs(spec - ek) <= bnd)[0] if j not in used]
+                if not cand:
+                    genuine = False
+                    break
+                used.add(int(cand[0]))
+            if xm == "rpa":
+                u_, v_ = X + Y, X - Y
+                r1_ = v_ @ (ref["A"] - ref["B"]).T - E[:, None] * u_
+                r2_ = u_ @ (ref["A"] + ref["B"]).T - E[:, None] * v_
+                res_ = max(float(np.abs(r1_).max()), float(np.abs(r2_).max()))
+                ortho_ = float(np.abs(X @ X.T - Y @ Y.T - np.eye(len(E))).max())
+            else:
+                res_ = float(np.abs(X @ ref["A"].T - E[:, None] * X).max())
+                ortho_ = float(np.abs(X @ X.T - np.eye(len(E))).max())
+            # (a residual slightly above tol after a stagnation exit is a separate, separately keyed matter)
+            genuine = genuine and ortho_ <= ORTHO_TOL and res_ <= 10.0 * tol + RES_ABS
+            wit["returned_set_are_true_eigenpairs"] = bool(genuine)
+            wit["skipped_dense_indices"] = [int(j) + 1 for j in range(max(used) if used else 0) if j not in used][:8]
+            if not genuine:
+                return "root-skipped-returned-set-not-eigenpairs-%s-%s" % (solver, startclass)
             return "davidson-root-skipped-%s-geometry-%s" % ("symmetric" if sym else "asymmetric", startclass)
         return "%s-%s-%s" % (clause, solver, startclass)
 
@@ -770,10 +868,17 @@ def _judge(acc, mol, b, run, cache, do_sigma=True):
         acc.m("mixed_batch_unstable_reference")
         lam = ref["lam"]
         bound = math.sqrt(max(m, 1) * nov) * tol + EIG_ABS
+        Eall = mol.cis_energies[b].detach().cpu().numpy()
         bad = m < n_req or bool(np.any(np.abs(E[:n_req] - lam[:n_req]) > bound))
         if bad:
-            acc.v("unstable-reference-roots-replaced-by-padding", "rcis-any-batch-negative-roots-vs-zero-padding",
-                  dense_lowest=lam[: n_req + 2].tolist(), **wit)
+            # explained by the listed mechanism only if there ARE negative roots and every returned number is either an
+            # exact zero (a padded subspace row) or a genuine dense eigenvalue
+            explained = lam[0] < -bound and all(
+                (e == 0.0) or bool(np.any(np.abs(lam - e) <= bound)) for e in Eall) and bool(np.any(Eall == 0.0))
+            acc.v("unstable-reference-roots-replaced-by-padding",
+                  "rcis-any-batch-negative-roots-vs-zero-padding" if explained and not sig_bad
+                  else "unstable-reference-wrong-roots-rcis-any-batch",
+                  dense_lowest=lam[: n_req + 2].tolist(), all_returned=Eall.tolist(), **wit)
         rec["ok"] = False
         return rec
     if m < n_req:
@@ -803,7 +908,7 @@ def _judge(acc, mol, b, run, cache, do_sigma=True):
             if acc.margin("cis_eig_upper", max(dk, 0.0), bound):
                 later = np.nonzero(np.abs(lam[k + 1:] - E[k]) <= bound)[0]
                 cl = "root-skipped" if len(later) else "eigenvalue-off"
-                acc.v(cl, mech(cl), root=k + 1, E=float(E[k]), dense=float(lam[k]), diff=dk, bound=bound, **wit)
+                acc.v(cl, mech(cl, bound), root=k + 1, E=float(E[k]), dense=float(lam[k]), diff=dk, bound=bound, **wit)
                 rec["ok"] = False
                 break
             if acc.margin("cis_eig_variational_lower", max(-dk, 0.0), EIG_ABS):
@@ -859,7 +964,7 @@ def _judge(acc, mol, b, run, cache, do_sigma=True):
             if acc.margin("rpa_eig", abs(dk), bound):
                 later = np.nonzero(np.abs(om[k + 1:] - E[k]) <= bound)[0]
                 cl = "root-skipped" if (dk > 0 and len(later)) else "eigenvalue-off"
-                acc.v(cl, mech(cl), root=k + 1, E=float(E[k]), dense=float(om[k]), diff=dk, bound=bound, **wit)
+                acc.v(cl, mech(cl, bound), root=k + 1, E=float(E[k]), dense=float(om[k]), diff=dk, bound=bound, **wit)
                 rec["ok"] = False
                 break
             acc.note_max("rpa |E-omega| / (sqrt(nov) tol + 1e-9)", abs(dk) / (math.sqrt(nov) * tol + EIG_ABS))
@@ -1008,6 +1113,20 @@ def _point(case, acc):
     for xm in ("cis", "rpa"):
         cache = {}
         mol, es, info = _fresh(Z, X, _settings(method, xm, n_req, tol, window), q, m)
+        if window and xm == "rpa":
+            # RPA has no orbital-window support: the package must reject the request loudly (NotImplementedError) and
+            # before any excited-state result is attached to the molecule.  A call that returns is judged against the
+            # windowed dense RPA below (mechanism rpa-orbital-window-silently-ignored).
+            acc.m("rpa_window_calls")
+            if info["raised"] and info["raised"].startswith("NotImplementedError"):
+                import torch
+                left = [a for a in ("cis_energies", "cis_amplitudes") if torch.is_tensor(getattr(mol, a, None))]
+                acc.m("rpa_window_rejected")
+                acc.cells.append("rpa/window/rejected-%s-results" % ("AFTER" if left else "before"))
+                if left:
+                    acc.v("rejection-after-results", "rpa-window-rejected-after-results-set", attributes_set=left,
+                          window=window, message=info["raised"])
+                continue
         if info["raised"]:
             _note_raise(acc, info, "%s-default" % xm)
             continue
@@ -1069,7 +1188,7 @@ def _seq(case, acc):
         fresh.append(_judge(acc, mol, 0, {"xm": xm, "tol": tol, "n_req": n_req, "solver": solver, "start": "default-guess",
                                           "label": "point %d fresh" % t, "iters": info["iters"], "stag": info["stagnation"]}, {}, do_sigma=(t == 0)))
     obs["E"]["fresh"] = [f["E"][:n_req].tolist() if f else None for f in fresh]
-    for mode in ("reuse-best-guess", "reuse-raw", "no-reuse"):
+    for mode in case.get("modes") or ("reuse-best-guess", "reuse-raw", "no-reuse"):
         from vlib import run
         sett = _settings(method, xm, n_req, tol, best=(mode != "reuse-raw"))
         with run.quiet():
